@@ -46,14 +46,14 @@ func wrap32(v int64) int32 { return int32(uint32(uint64(v))) } // low 32 bits
 func operands() []operand {
 	mk := func(name string, v any, i int64) operand { return operand{name, v, wrap32(i), i} }
 	return []operand{
+		mk("int MaxInt32", 2147483647, 2147483647),
 		mk("int 1", 1, 1),
+		mk("int64 MaxInt64", int64(9223372036854775807), 9223372036854775807),
 		mk("int -3", -3, -3),
 		mk("int 7", 7, 7),
-		mk("int MaxInt32", 2147483647, 2147483647),
 		mk("int MinInt32", -2147483648, -2147483648),
 		mk("int 2^32+5", 4294967301, 4294967301),
 		mk("int -(2^40)-1", -1099511627777, -1099511627777),
-		mk("int64 MaxInt64", int64(9223372036854775807), 9223372036854775807),
 		mk("int64 2^62", int64(4611686018427387904), 4611686018427387904),
 		mk("int64 -9", int64(-9), -9),
 		mk("int32 -2^31", int32(-2147483648), -2147483648),
@@ -223,8 +223,19 @@ func evalObjCnt(c Case, trace bool) verdict {
 		key := objKeys[s.A%len(objKeys)]
 		v := s.D % 100
 		op := s.Op
-		if (op == "nestedSet" || op == "nestedDel") && (m.o.obj[key] == nil || m.o.obj[key].kind != 'o') {
-			op = "setObj"
+		if op == "nestedSet" || op == "nestedDel" {
+			// pick among the keys that hold an object (sorted: no map order)
+			var cs []string
+			for _, k := range objKeys {
+				if x := m.o.obj[k]; x != nil && x.kind == 'o' {
+					cs = append(cs, k)
+				}
+			}
+			if len(cs) == 0 {
+				op = "setObj"
+			} else {
+				key = cs[s.A%len(cs)]
+			}
 		}
 		desc := op
 		fail := w.update(r, &desc, func(root *yjson.Object) *kit.Failure {
@@ -270,7 +281,7 @@ func evalObjCnt(c Case, trace bool) verdict {
 				case !has && got != nil:
 					return kit.Failf("OBJECT-DELETE", "%s on %s returned %s for an absent key", desc, before, got.Marshal())
 				case has && (got == nil || got.Marshal() != want.marshal()):
-					return kit.Failf("OBJECT-DELETE", "%s on %s returned %v, model deletes %s", desc, before, got, want.marshal())
+					return kit.Failf("OBJECT-DELETE", "%s on %s returned %s, model deletes %s", desc, before, marshalOrNil(got), want.marshal())
 				}
 				if !has {
 					w.count("del:absent_key")
